@@ -481,7 +481,14 @@ def resources_job(item, tier):
     from workload import Resource, Resources
 
     depth = item[1]
-    IDS = [("CPU", "a", 1), ("CPU", "b", 1), ("GPU", "g", 1)]
+    fixture = item[2] if len(item) > 2 else "a1b1g1"
+    # a2b1g1: the first CPU id holds more than a unit request takes (surplus left on a
+    # non-last id), and a 3-unit request has to span both ids
+    IDS = {"a1b1g1": [("CPU", "a", 1), ("CPU", "b", 1), ("GPU", "g", 1)],
+           "a2b1g1": [("CPU", "a", 2), ("CPU", "b", 1), ("GPU", "g", 1)]}[fixture]
+    TOTALS = {}
+    for _n, _i, _q in IDS:
+        TOTALS[_n] = TOTALS.get(_n, 0) + _q
     REQS = {
         "c1": {("CPU", "any"): 1}, "c2": {("CPU", "any"): 2}, "c3": {("CPU", "any"): 3},
         "ca": {("CPU", "a"): 1}, "g1": {("GPU", "any"): 1},
@@ -516,7 +523,11 @@ def resources_job(item, tier):
     def apply(rs, comps, refs, op, bad):
         if op[0] in ("copy", "deepcopy"):
             before = obs(rs[0])
-            rs.append(copy(rs[0]) if op[0] == "copy" else deepcopy(rs[0]))
+            try:
+                rs.append(copy(rs[0]) if op[0] == "copy" else deepcopy(rs[0]))
+            except Exception as e:  # noqa: B902
+                bad("res.copy_raises", f"{op[0]} raised {type(e).__name__}: {e}")
+                rs.append(deepcopy(rs[0]) if op[0] == "copy" else rs[0])
             refs.append({k: dict(v) for k, v in refs[0].items()} if op[0] == "copy"
                         else {})
             if obs(rs[0]) != before:
@@ -566,7 +577,7 @@ def resources_job(item, tier):
             _k, _t, c = op
             try:
                 r.deallocate(comps[c])
-            except ValueError as e:
+            except Exception as e:  # noqa: B902
                 bad("res.dealloc_raises", f"{op}: {e!r}")
             ref.pop(c, None)
         for i in other:
@@ -578,7 +589,7 @@ def resources_job(item, tier):
             for c, d in rf.items():
                 for n, q in d.items():
                     held[n] = held.get(n, 0) + q
-            for n, tot in (("CPU", 2), ("GPU", 1)):
+            for n, tot in sorted(TOTALS.items()):
                 av = rr.get_available_quantity(Resource(n, "any"))
                 if av != tot - held.get(n, 0):
                     bad("res.ledger", f"object {tgi} {n}: available {av}, reference "
@@ -627,7 +638,8 @@ def resources_job(item, tier):
                     if len(out) < 25 or (not mixed and len(out) < 40):
                         out.append({"rule": rule, "msg": f"history {list(h2)}: {msg}",
                                     "mixed_any_and_id_request": mixed,
-                                    "case": {"res_history": [list(o) for o in h2]}})
+                                    "case": {"res_history": [list(o) for o in h2],
+                                             "fixture": fixture}})
                 r2, c2, f2 = build(hist)
                 b = obs(r2[op[1]]) if len(op) > 1 else None
                 apply(r2, c2, f2, op, bad)
@@ -652,7 +664,8 @@ def resources_job(item, tier):
     return {"states": len(seen), "transitions": transitions, "validated": transitions,
             "evaluations": transitions, "stats": stats, "violations": out,
             "distinct": [hash(k) for k in seen],
-            "samples": [{"resources_bfs_depth": depth, "states": len(seen)}]}
+            "samples": [{"resources_bfs_depth": depth, "fixture": fixture,
+                         "states": len(seen)}]}
 
 
 def job(item, tier):
@@ -680,7 +693,8 @@ def case_job(case, tier):
             check_against_reference(w, tg, r[tg], bad, hist)
         drain_check(hist, bad)
     elif "res_history" in case:
-        r = resources_job(("resources", len(case["res_history"])), tier)
+        r = resources_job(("resources", len(case["res_history"]),
+                           case.get("fixture", "a1b1g1")), tier)
         out = r["violations"]
     return {"violations": out}
 
@@ -720,7 +734,8 @@ def items(tier):
     bf += [("copy",), ("deepcopy",)]
     for f in bf:
         it.append(("bfs", "batch", [list(f)], batch_depth))
-    it.append(("resources", 4 if tier == "quick" else 5))
+    it.append(("resources", 4 if tier == "quick" else 5, "a1b1g1"))
+    it.append(("resources", 4 if tier == "quick" else 5, "a2b1g1"))
     return it
 
 
@@ -743,4 +758,4 @@ def main(tier, seed):
 
 
 def replay(path):
-    return generic_replay("C04", path, confirm_job, extra=("quick",))
+    return generic_replay("C04", path, confirm_job, extra=("quick",), item_job=job)
